@@ -1,15 +1,13 @@
 (** Totality-related facts about the parser model (property C01). *)
 From ClapModel Require Import Base.Bytes Base.Machine Base.Utf8.
 From ClapModel Require Import Parse.Cmd Parse.Build Parse.Valid Parse.Matcher Parse.Errors Parse.Validator Parse.Parser.
-From Coq Require Import ZArith.
+From ClapModel Require Import ParseProofs.Safe.
+From Coq Require Import ZArith Lia.
 From RecordUpdate Require Import RecordSet.
 Import RecordSetNotations.
 Open Scope N_scope.
 
 (** * [Arg::_build] fills in action, value count and value parser *)
-Definition arg_complete (a : arg) : Prop :=
-  a_action a <> None /\ a_num a <> None /\ a_vp a <> None.
-
 Lemma ab_action_spec a : a_action (ab_action a) <> None.
 Proof. unfold ab_action. destruct (a_action a) eqn:E; [rewrite E; discriminate | cbn; discriminate]. Qed.
 Lemma ab_default_action a : a_action (ab_default a) = a_action a.
@@ -81,14 +79,6 @@ Proof.
 Qed.
 
 (** * The short-cluster walk terminates within its fuel *)
-Lemma sf_next_shrinks r x r' : sf_next r = Some (x, r') -> (length r' < length r)%nat.
-Proof.
-  unfold sf_next. destruct r as [|b t]; [discriminate|].
-  destruct (utf8_step (b :: t)) as [[c n]|] eqn:E.
-  - intros H; inversion H; subst. apply utf8_step_len in E. rewrite skipn_length. cbn [length] in *. lia.
-  - intros H; inversion H; subst. cbn. lia.
-Qed.
-
 Lemma sf_any_unknown_total c : forall fuel r, (length r < fuel)%nat ->
   forall fuel', (length r < fuel')%nat -> sf_any_unknown c fuel r = sf_any_unknown c fuel' r.
 Proof.
@@ -111,4 +101,218 @@ Proof.
   destruct (get_matches_with _ _ _ _) as [st|e st|s]; [exact I| |destruct s; exact I].
   rewrite Hig. cbn [andb].
   destruct (e_kind e) eqn:K; cbn; try exact I; rewrite K; auto.
+Qed.
+
+(** * Totality across the command tree *)
+From ClapModel Require Import ParseProofs.Invariant.
+
+(** the per-level facts used by Invariant.v *)
+Definition wfc (c : cmd) : Prop :=
+  (forall a, In a (c_args c) -> arg_complete a)
+  /\ (forall a, In a (c_args c) -> a_index a <> None -> a_is_positional a = true)
+  /\ (forall a, In a (c_args c) -> find_arg c (a_id a) = Some a)
+  /\ (forall ch, find_short_subcmd c ch = None)
+  /\ (forall a, In a (c_args c) -> a_is_positional a = true -> a_index a <> None).
+
+(** a state predicate closed under the primitive matcher operations (see Invariant.v) *)
+Definition closedP (P : list (id * marg) -> N -> Prop) : Prop :=
+  (forall l k, P l k -> P l (k + 1))
+  /\ (forall l k i, P l k -> P (fst (fm_remove i l)) k)
+  /\ (forall l k i ic grp s, P l k ->
+        P (fm_entry_or_insert i (marg_new ic grp) (fun m => new_val_group (set_source s m)) l) k)
+  /\ (forall l k i m m' v, P l k -> fm_get i l = Some m -> append_val v m = Some m' ->
+        P (fm_update i (fun _ => m') l) k)
+  /\ (forall l k i m m' v, P l k -> fm_get i l = Some m -> append_val v m = Some m' ->
+        P (fm_update i (push_index (k + 1)) (fm_update i (fun _ => m') l)) (k + 1))
+  /\ P [] 0.
+
+(** what the tree must satisfy, level by level, along every chain of built subcommands *)
+Fixpoint tree_ok (fuel : nat) (c : cmd) : Prop :=
+  match fuel with
+  | O => False
+  | S f => wfc c /\ assert_app c = true
+           /\ forall name sc, build_subcommand c name = Some sc -> tree_ok f sc
+  end.
+
+Section Tree.
+Variable P : list (id * marg) -> N -> Prop.
+Hypothesis HP : closedP P.
+(** the validator's own panic sites (validator.rs) are dealt with separately *)
+Hypothesis validate_total : forall c m, wfc c -> assert_app c = true ->
+  entries_ok c (mt_args m) -> forall s, validate c m <> VPanic s.
+
+Lemma gmw_safe : forall fuel c toks st0, tree_ok fuel c -> G c P st0 ->
+  safe (G c P) (G c P) (get_matches_with fuel c toks st0).
+Proof.
+  destruct HP as [PC1 [PC2 [PC3 [PC4 [PC5 PC0]]]]].
+  induction fuel as [|f IH]; intros c toks st0 Hok HG; [destruct Hok|].
+  destruct Hok as [Hwf [Happ Hch]]. pose proof Hwf as [W1 [W2 [W3 [W4 W5]]]].
+  cbn [get_matches_with].
+  match goal with |- safe _ _ (match ?pp with ROk _ => _ | RErr _ _ => _ | RPanic _ => _ end) => set (parsed := pp) end.
+  assert (Hparsed : safe (G c P) (G c P) parsed).
+  { subst parsed. eapply safe_bind.
+    - eapply parse_loop_safe; try eassumption. exact I.
+    - intros lr Hlr. destruct lr as [st|name keep vaf st rest|name vals st|names st].
+      + exact (proj1 Hlr).
+      + destruct Hlr as [HGs [-> [sc0 Hfind]]].
+        destruct (is_set s_args_negate_subs c && vaf); [exact HGs|].
+        rewrite Hfind. cbn [expect rbind].
+        destruct (build_subcommand c (c_name sc0)) as [sc|] eqn:Eb; [|exact HGs].
+        pose proof (Hch _ _ Eb) as Hsc.
+        destruct f as [|f']; [destruct Hsc|].
+        pose proof Hsc as [_ [Happsc _]]. rewrite Happsc. cbn [negb].
+        pose proof (IH sc rest ps_new Hsc (G_ps_new sc P PC0)) as Hsub.
+        destruct (get_matches_with (S f') sc rest ps_new) as [sub_st|e sub_st|site]; cbn in Hsub.
+        * apply G_set_sub; exact HGs.
+        * destruct (is_set s_ignore_errors c); [apply G_set_sub; exact HGs|exact HGs].
+        * contradiction.
+      + destruct Hlr as [HGs _].
+        match goal with |- safe _ _ (rbind ?fl _) => set (filled := fl) end.
+        assert (Hfill : match filled with ROk _ => True | RErr _ s => s = st | RPanic _ => False end).
+        { subst filled. apply external_fill_safe. cbn.
+          eexists. split; [reflexivity|]. cbn. discriminate. }
+        destruct filled as [m|e s|x]; cbn [rbind]; [|subst s; exact HGs|contradiction].
+        apply G_set_sub; exact HGs.
+      + exact (proj1 Hlr). }
+  destruct parsed as [st|e st|site]; cbn in Hparsed; [| |contradiction].
+  - eapply safe_bind; [eapply resolve_pending_safe; eassumption|].
+    intros st1 [HG1 _].
+    eapply safe_bind; [eapply add_env_safe; eassumption|].
+    intros st2 HG2.
+    eapply safe_bind; [eapply add_defaults_safe; eassumption|].
+    intros st3 HG3. unfold vres_to_res.
+    destruct (validate c (mt st3)) as [|k a|s] eqn:Ev; [exact HG3|exact HG3|].
+    exfalso. apply (validate_total c (mt st3) Hwf Happ) with (s := s); [apply HG3|exact Ev].
+  - destruct (is_set s_ignore_errors c); [|exact Hparsed].
+    assert (He : safe (G c P) (G c P) (add_env c st)) by (eapply add_env_safe; eassumption).
+    destruct (add_env c st) as [s1|e1 s1|x1]; cbn in He; [| |contradiction].
+    + assert (Hd : safe (G c P) (G c P) (add_defaults c s1)) by (eapply add_defaults_safe; eassumption).
+      destruct (add_defaults c s1) as [s2|e2 s2|x2]; cbn in Hd; [exact Hd|exact Hd|contradiction].
+    + assert (Hd : safe (G c P) (G c P) (add_defaults c s1)) by (eapply add_defaults_safe; eassumption).
+      destruct (add_defaults c s1) as [s2|e2 s2|x2]; cbn in Hd; [exact Hd|exact Hd|contradiction].
+Qed.
+End Tree.
+
+(** * Discharging the level hypotheses: [build_self] of a definition as users can write it *)
+
+(** [plain x]: no node carries the internal [Built] flag (users cannot set it), and — the class
+    this file's totality theorem is stated for — no subcommand has a short flag
+    (see the recorded finding on nested short flag-subcommands). *)
+Fixpoint plain (x : cmd) : bool :=
+  match x with
+  | mkCmd _ _ _ _ _ _ _ _ subs set gset _ _ _ _ _ _ _ =>
+      negb (s_built set) && negb (s_built gset)
+      && (fix go (l : list cmd) : bool :=
+            match l with
+            | [] => true
+            | s :: t => match c_short_flag s with None => true | Some _ => false end
+                        && is_nil (c_short_flag_aliases s) && plain s && go t
+            end) subs
+  end.
+
+Definition nsf (s : cmd) : Prop := c_short_flag s = None /\ c_short_flag_aliases s = [].
+
+Lemma plain_spec x : plain x = true <->
+  s_built (c_set x) = false /\ s_built (c_gset x) = false
+  /\ forall s, In s (c_subs x) -> nsf s /\ plain s = true.
+Proof.
+  destruct x as [n al sf lf sfa lfa args groups subs set gset v lv ext bn dn ab lab]. cbn [plain c_set c_gset c_subs].
+  set (go := fix go (l : list cmd) : bool :=
+            match l with
+            | [] => true
+            | s :: t => match c_short_flag s with None => true | Some _ => false end
+                        && is_nil (c_short_flag_aliases s) && plain s && go t
+            end).
+  assert (Hgo : forall l, go l = true <-> forall s, In s l -> nsf s /\ plain s = true).
+  { induction l as [|s t IH]; cbn [go]; [split; [intros _ s []|reflexivity]|].
+    rewrite !Bool.andb_true_iff, IH. unfold nsf. split.
+    - intros [[[H1 H2] H3] H4] s' [<-|Hin]; [|apply H4; exact Hin].
+      destruct (c_short_flag s); [discriminate|]. destruct (c_short_flag_aliases s); [|discriminate]. auto.
+    - intros H. destruct (H s (or_introl eq_refl)) as [[H1 H2] H3]. rewrite H1, H2.
+      split; [split; [split; reflexivity|exact H3]|]. intros s' Hs'. apply H. right; exact Hs'. }
+  rewrite !Bool.andb_true_iff, !Bool.negb_true_iff, Hgo. tauto.
+Qed.
+
+(** ** subcommands of a built command *)
+Definition add_globals (globals : list arg) (sc : cmd) : cmd :=
+  fold_left (fun sc a => if is_some (find_arg sc (a_id a)) then sc else sc <| c_args := c_args sc ++ [a] |>) globals sc.
+
+Lemma add_globals_frame globals : forall sc,
+  c_subs (add_globals globals sc) = c_subs sc /\ c_set (add_globals globals sc) = c_set sc
+  /\ c_gset (add_globals globals sc) = c_gset sc /\ c_short_flag (add_globals globals sc) = c_short_flag sc
+  /\ c_short_flag_aliases (add_globals globals sc) = c_short_flag_aliases sc
+  /\ c_name (add_globals globals sc) = c_name sc.
+Proof.
+  unfold add_globals. induction globals as [|a t IH]; intros sc; cbn [fold_left]; [repeat split|].
+  destruct (is_some (find_arg sc (a_id a))); [apply IH|].
+  destruct (IH (sc <| c_args := c_args sc ++ [a] |>)) as [H1 [H2 [H3 [H4 [H5 H6]]]]].
+  rewrite H1, H2, H3, H4, H5, H6. repeat split.
+Qed.
+
+(** the frame of a child: what [plain] and [nsf] read *)
+Definition same_frame (a b : cmd) : Prop :=
+  c_subs a = c_subs b /\ c_short_flag a = c_short_flag b /\ c_short_flag_aliases a = c_short_flag_aliases b.
+
+Lemma c_subs_bs_mark c : c_subs (bs_mark c) = c_subs c. Proof. reflexivity. Qed.
+Lemma c_subs_bs_deprecated c : c_subs (bs_deprecated c) = c_subs c. Proof. reflexivity. Qed.
+Lemma c_subs_bs_args c : c_subs (bs_args c) = c_subs c. Proof. reflexivity. Qed.
+
+Lemma subs_build_self x : s_built (c_set x) = false ->
+  forall s, In s (c_subs (build_self x)) ->
+  (exists s0, In s0 (c_subs x) /\ same_frame s s0
+              /\ s_built (c_set s) = s_built (c_set s0) || s_built (c_gset x)
+              /\ s_built (c_gset s) = s_built (c_gset s0) || s_built (c_gset x))
+  \/ (c_subs s = [] /\ nsf s /\ s_built (c_set s) = s_built (c_gset x) /\ s_built (c_gset s) = s_built (c_gset x)).
+Proof.
+  intros Hb s. unfold build_self. rewrite Hb.
+  rewrite c_subs_bs_mark, c_subs_bs_deprecated, c_subs_bs_args.
+  set (x1 := bs_settings x).
+  assert (Hx1 : c_subs x1 = c_subs x /\ c_gset x1 = c_gset x).
+  { subst x1. unfold bs_settings.
+    repeat match goal with |- context [if ?b then _ else _] => destruct b end; split; reflexivity. }
+  destruct Hx1 as [Hs1 Hg1].
+  set (x2 := bs_propagate x1). set (x3 := bs_help_version x2).
+  unfold bs_globals. cbn [c_subs]. intros Hin.
+  change (c_subs (x3 <| c_subs := ?l |>)) with l in Hin.
+  apply in_map_iff in Hin. destruct Hin as [s3 [Hs Hin3]].
+  (* s3 is a child of x3: a propagated child of x or the help subcommand *)
+  assert (H3 : (exists s0, In s0 (c_subs x) /\ s3 = propagate_subcommand x1 s0)
+               \/ s3 = fix_help_unset (help_subcommand (if negb (is_disable_version_flag_set
+                      (if negb (is_set s_disable_help_flag x2) then x2 <| c_args := c_args x2 ++ [help_arg] |> else x2))
+                      then (if negb (is_set s_disable_help_flag x2) then x2 <| c_args := c_args x2 ++ [help_arg] |> else x2)
+                           <| c_args := c_args (if negb (is_set s_disable_help_flag x2) then x2 <| c_args := c_args x2 ++ [help_arg] |> else x2) ++ [version_arg] |>
+                      else (if negb (is_set s_disable_help_flag x2) then x2 <| c_args := c_args x2 ++ [help_arg] |> else x2)))).
+  { subst x3. unfold bs_help_version in Hin3.
+    set (y1 := if negb (is_set s_disable_help_flag x2) then x2 <| c_args := c_args x2 ++ [help_arg] |> else x2) in *.
+    set (y2 := if negb (is_disable_version_flag_set y1) then y1 <| c_args := c_args y1 ++ [version_arg] |> else y1) in *.
+    assert (Hy2 : c_subs y2 = map (propagate_subcommand x1) (c_subs x1)).
+    { subst y2 y1 x2. unfold bs_propagate.
+      repeat match goal with |- context [if ?b then _ else _] => destruct b end; reflexivity. }
+    destruct (negb (is_set s_disable_help_sub y2)).
+    - cbn [c_subs] in Hin3. change (c_subs (y2 <| c_subs := ?l |>)) with l in Hin3.
+      rewrite Hy2 in Hin3. apply in_app_or in Hin3. destruct Hin3 as [Hin3|[Hin3|[]]].
+      + apply in_map_iff in Hin3. destruct Hin3 as [s0 [<- Hin0]]. left. exists s0. rewrite <- Hs1. auto.
+      + right. rewrite <- Hin3. reflexivity.
+    - rewrite Hy2 in Hin3. apply in_map_iff in Hin3. destruct Hin3 as [s0 [<- Hin0]]. left. exists s0. rewrite <- Hs1. auto. }
+  (* the globals step keeps the frame *)
+  assert (Hfr : same_frame s s3 /\ c_set s = c_set s3 /\ c_gset s = c_gset s3).
+  { rewrite <- Hs. destruct (beq (c_name s3) s_help && negb (is_set s_disable_help_sub x3)); [repeat split|].
+    destruct (add_globals_frame (filter a_global (c_args x3)) s3) as [H1 [H2 [H3' [H4 [H5 _]]]]].
+    unfold add_globals in *. repeat split; assumption. }
+  destruct Hfr as [[Hf1 [Hf2 Hf3]] [Hf4 Hf5]].
+  destruct H3 as [[s0 [Hin0 Heq]]|Heq]; subst s3.
+  - left. exists s0. split; [exact Hin0|]. rewrite Hf4, Hf5. unfold same_frame. rewrite Hf1, Hf2, Hf3.
+    unfold propagate_subcommand.
+    destruct (s_propagate_version (c_set x1));
+      repeat match goal with |- context [match ?o with Some _ => _ | None => _ end] => destruct o end;
+      cbn; rewrite ?Hg1; repeat split; reflexivity.
+  - right. rewrite Hf1, Hf4, Hf5. unfold nsf. rewrite Hf2, Hf3.
+    match goal with |- context [help_subcommand ?y] => set (yy := y) end.
+    assert (Hgy : c_gset yy = c_gset x).
+    { subst yy x2. unfold bs_propagate.
+      repeat match goal with |- context [if ?b then _ else _] => destruct b end; cbn; exact Hg1. }
+    unfold fix_help_unset, help_subcommand, propagate_subcommand.
+    destruct (s_propagate_version (c_set yy));
+      repeat match goal with |- context [match ?o with Some _ => _ | None => _ end] => destruct o end;
+      cbn; rewrite ?Hgy; repeat split; reflexivity.
 Qed.
